@@ -15,6 +15,7 @@ from fractions import Fraction
 from typing import Dict, List, Optional
 
 from .algebra import Poly
+from . import trans
 from .index import ClassInfo, FuncInfo, Index, ModuleInfo, PropInfo
 from .model import ATTR, PARAM
 from .values import (ANY, D0, NOCONST, TOP, D, ObjRef, Val, dim_collapse, dim_div, dim_known, dim_mul,
@@ -274,7 +275,8 @@ class Interp:
         scalar = kind in ("float", "int", "bool", "str")
         v = Val(dim=dim, kind=kind, al=frozenset() if scalar else frozenset([loc]), deps=frozenset([loc]),
                 pdeps=frozenset([name]), guardp=frozenset([name]), born=0,
-                tags=frozenset(["raw-param"]) if scalar else frozenset(["param-root", "raw-param"]))
+                tags=frozenset(["raw-param"]) if scalar else frozenset(["param-root", "raw-param"]),
+                tr=trans.TR_PARAM.get(name))
         if kind in ("float", "int"):
             v.sym = Poly.atom(f"param.{name}")
         return v
@@ -834,6 +836,9 @@ class Interp:
                         d, conflict = colsel
                         if conflict:
                             self.dimconflict(st, node, cur, v, "store into column")
+                    elif self._is_reshape_index(idx) and not any(i.kind == "none" for i in (idx.items if idx.kind == "indextuple" else (idx,))):
+                        # x[:] = v / x[...] = v overwrites every element: the buffer now holds v (a buffer may be reused)
+                        d = v.dim
                     else:
                         d, conflict = dim_unify(cur.dim, v.dim)
                         if conflict and dim_known(dim_collapse(cur.dim)) and dim_known(dim_collapse(v.dim)):
@@ -1063,7 +1068,12 @@ class Interp:
         while sh and o in sh and attr not in sh[o][1]:
             o = sh[o][0]
             locs.append((o, attr))
-        v = Val(dim=dim, kind=kind, al=frozenset() if scalar else frozenset(locs), deps=frozenset(locs), born=self.time)
+        v = Val(dim=dim, kind=kind, al=frozenset() if scalar else frozenset(locs), deps=frozenset(locs), born=self.time,
+                tr=trans.TR_ATTR.get(attr))
+        if attr == "_vertices":
+            v.tags = v.tags | {("rows-of", "_vertices", 0)}      # number of rows relative to the vertex count
+        if attr in ("_vertices", "_centroid"):
+            v.tags = v.tags | {"world3"}                          # coordinates in the world frame (not rotated into a plane)
         if kind == "float":
             ss = st.comp.get("__symstore", {})
             if loc in ss:
@@ -1119,6 +1129,10 @@ class Interp:
     def subscript(self, base: Val, idx: Val, node, st) -> Val:
         self._rawuse(st, node, base)
         out = self._subscript(base, idx, node, st)
+        if out is not base and getattr(out, "tr", None) is None and base.kind in ("arr", "unknown", "idx", "float") and not out.has_const():
+            t_ = trans.subscript(base, idx)
+            if t_ is not None:
+                out = out.copy(tr=t_)
         if "batch" in base.tags or "batch" in idx.tags:
             first = idx.items[0] if (idx.kind == "indextuple" and idx.items) else idx
             if first.kind != "int" and not (first.has_const() and isinstance(first.const, int)):
@@ -1214,6 +1228,40 @@ class Interp:
             tags = tags | {("copy-of", tuple(sorted(src)))}
         if "maybe-int" in base.tags and kind == "arr":
             tags = tags | {"maybe-int"}
+        for tg in base.tags:
+            if isinstance(tg, tuple) and tg[0] == "rows-of":
+                first = idx.items[0] if (idx.kind == "indextuple" and idx.items) else idx
+                if first.kind == "slice" and first.extra is not None and first.extra.step is None:
+                    try:
+                        lo = ast.literal_eval(first.extra.lower) if first.extra.lower is not None else 0
+                        hi = ast.literal_eval(first.extra.upper) if first.extra.upper is not None else None
+                    except Exception:
+                        lo = hi = "?"
+                    if isinstance(lo, int) and lo >= 0 and (hi is None or (isinstance(hi, int) and hi < 0)):
+                        tags = tags | {("rows-of", tg[1], tg[2] - lo + (hi or 0))}
+        point_like = any(isinstance(t_, tuple) and t_[0] == "getter-of" and t_[1] in ("centroid", "center") for t_ in base.tags) \
+            or (base.al and all(loc_[1] == "_centroid" for loc_ in base.al))
+        if point_like and idx.kind in ("slice", "int") and kind in ("arr", "unknown", "float"):
+            # a single world-frame point: c[:2], c[0] select fixed world coordinates
+            if idx.kind == "int" and idx.has_const():
+                self.emit(st, "world-column", node, base=base, index=idx)
+            elif idx.kind == "slice" and idx.extra is not None and (idx.extra.lower is not None or idx.extra.upper is not None) \
+                    and all(x is None or isinstance(x, ast.Constant) for x in (idx.extra.lower, idx.extra.upper)):
+                self.emit(st, "world-column", node, base=base, index=idx)
+        if "world3" in base.tags and kind in ("arr", "unknown", "float"):
+            items_ = idx.items if idx.kind == "indextuple" else None
+            last_ = items_[-1] if items_ and len(items_) >= 2 else None
+            col_const = False
+            if last_ is not None:
+                if last_.has_const() and isinstance(last_.const, int) and not isinstance(last_.const, bool):
+                    col_const = True
+                elif last_.kind == "slice" and last_.extra is not None and (last_.extra.lower is not None or last_.extra.upper is not None):
+                    col_const = all(x is None or isinstance(x, ast.Constant) for x in (last_.extra.lower, last_.extra.upper))
+            if col_const:
+                self.emit(st, "world-column", node, base=base, index=idx)
+            elif last_ is None or (last_.kind == "slice" and last_.extra is not None and last_.extra.lower is None and last_.extra.upper is None) \
+                    or last_.kind == "none":
+                tags = tags | {"world3"}       # rows selected / reshaped: still world-frame coordinates
         if self._is_reshape_index(idx):
             # x[None, :], x[np.newaxis], x[...]: the same values with another shape
             tags = tags | frozenset(t for t in base.tags if isinstance(t, tuple) and t[0] in ("getter-of", "saved-centroid", "val-of"))
@@ -1295,6 +1343,20 @@ class Interp:
         if isinstance(op, ast.Mod) and (l.kind in ("arr", "unknown") or r.kind in ("arr", "unknown")) and not l.kind == "str":
             return self.np.call_ext(self, "numpy.mod", node, [l, r], {}, st)
         out = self._binop(op, l, r, st, node)
+        if out.tr is None and not out.has_const():
+            out.tr = trans.binop(op, l, r)
+        rl = {t for t in l.tags if isinstance(t, tuple) and t[0] == "rows-of"}
+        rr = {t for t in r.tags if isinstance(t, tuple) and t[0] == "rows-of"}
+        if isinstance(op, ast.Div) and "norm" in r.tags and r.kind in ("float", "arr") and l.kind in ("arr", "unknown") \
+                and (r.deps or r.pdeps) and {d for d in r.deps if d[0] != "call"} <= l.deps and r.pdeps <= l.pdeps:
+            out.tags = out.tags | {"unit"}        # x / |x|: a unit vector
+        if isinstance(op, ast.Mult) and (("unit" in l.tags and r.is_number_const() and abs(r.const) == 1)
+                                         or ("unit" in r.tags and l.is_number_const() and abs(l.const) == 1)):
+            out.tags = out.tags | {"unit"}
+        if isinstance(op, (ast.Add, ast.Sub)) and ("world3" in l.tags or "world3" in r.tags) and out.kind in ("arr", "unknown"):
+            out.tags = out.tags | {"world3"}
+        if (rl or rr) and out.kind == "arr" and (not rl or not rr or rl == rr):
+            out.tags = out.tags | (rl or rr)      # elementwise arithmetic (broadcast against a row / scalar) keeps the row count
         bt = batch_tag(l, r)
         if bt and out.kind not in ("str",):
             out.tags = out.tags | bt
@@ -1439,7 +1501,8 @@ class Interp:
                 o.deps, o.pdeps = v.deps, v.pdeps
                 return o
             return Val(dim=v.dim, kind=v.kind, deps=v.deps, pdeps=v.pdeps, sym=(-v.sym) if v.sym is not None else None,
-                       born=self.time, tags=(frozenset([("neg-of",) + tuple(sorted(v.al))]) if v.al else frozenset()) | batch_tag(v))
+                       born=self.time, tags=(frozenset([("neg-of",) + tuple(sorted(v.al))]) if v.al else frozenset()) | batch_tag(v),
+                       tr=v.tr if v.tr in ("T0", "TA", "TX") else None)
         if isinstance(n.op, ast.Invert):
             return Val(dim=D0, kind=v.kind, deps=v.deps, pdeps=v.pdeps, born=self.time, tags=batch_tag(v))
         return v.copy(al=frozenset(), born=self.time)
@@ -1693,6 +1756,13 @@ class Interp:
             if e.type == "reduce" and e.node is n and e.target is not None and "batch" in e.target.tags and e.f.get("axis") is None \
                     and e.fn not in ("norm",):
                 out = out.copy(deps=out.deps | {("collapsed", f"{e.fn}@{getattr(n, 'lineno', 0)}")})
+            # an unweighted mean over vertex coordinates (vertex average): harmless as an interior reference point, wrong
+            # when it stands for an area / volume centroid -> pseudo-dependence that travels with the value
+            if e.type == "reduce" and e.node is n and e.fn in ("mean", "average", "nanmean") and e.target is not None \
+                    and any(loc[1] == "_vertices" for loc in e.target.deps) and "weights" not in {k.arg for k in getattr(n, "keywords", [])} \
+                    and not any(loc[1] == "_simplices" or (loc[0] == "call" and "triangulat" in loc[1]) for loc in e.target.deps):
+                # (the mean of the corners of a triangle IS its centroid: triangulations are exempt)
+                out = out.copy(deps=out.deps | {("vertex-mean", f"{e.fn}@{getattr(n, 'lineno', 0)}")})
         return out
 
     def call_val(self, f: Val, args, kwargs, st, node) -> Val:
@@ -1746,6 +1816,26 @@ class Interp:
             if short not in ("atleast_2d", "asarray", "array", "atleast_1d", "asanyarray", "isinstance", "len"):
                 self._rawuse(st, node, *args)
             r = self.np.call_ext(self, f.ext, node, args, kwargs, st)
+            if r.tr is None and not r.has_const() and f.ext.startswith(("numpy", "np.")):
+                if short in ("lstsq", "solve"):
+                    tx = trans.solve_types(short, list(args))
+                    self.emit(st, "linsolve", node, fn=short, A=args[0] if args else None, b=args[1] if len(args) > 1 else None, xtype=tx)
+                    if short == "solve":
+                        r.tr = tx
+                    elif r.items:
+                        r.items = (r.items[0].copy(tr=tx),) + tuple(r.items[1:])
+                    else:
+                        r = r.copy(items=(Val(dim=r.dim, kind="arr", deps=r.deps, pdeps=r.pdeps, born=r.born, tr=tx),
+                                          Val(kind="arr", deps=r.deps, pdeps=r.pdeps, born=r.born, tr="T0" if trans.tr_of(args[0] if args else None) == "T0" and trans.tr_of(args[1] if len(args) > 1 else None) == "T0" else None),
+                                          Val(kind="int", dim=D0), Val(kind="arr", dim=D0)), kind="tuple")
+                else:
+                    r.tr = trans.call(short, list(args), kwargs, r)
+            elif r.tr is None and not r.has_const() and f.ext.startswith("rowan") and args \
+                    and trans.combine(list(args)) == "T0" and short in ("kabsch", "from_matrix", "to_matrix", "conjugate", "inverse", "normalize"):
+                # rotations computed from translation-invariant data (normals) are translation invariant
+                r.tr = "T0"
+                if r.items:
+                    r.items = tuple(i.copy(tr="T0") for i in r.items)
             if short in ("atleast_2d",) and args:
                 r.tags = r.tags | {"batch2d", "batch", ("baxis", 0)}
             elif batch_tag(*args) and short not in self.np.REDUCING and r.kind not in ("str", "int"):
@@ -1767,6 +1857,8 @@ class Interp:
         if f.kind == "arrmethod":
             self._rawuse(st, node, f.base)
             r = self.np.call_method(self, f.base, f.name, node, args, kwargs, st)
+            if r is not None and getattr(r, "tr", None) is None and not r.has_const() and r.obj is None:
+                r.tr = trans.method(f.base, f.name, list(args), kwargs)
             has_axis = bool(args) or "axis" in kwargs
             if "batch" in f.base.tags and (f.name not in self.np.REDUCING or has_axis) and not r.has_const():
                 r.tags = r.tags | {"batch"}
